@@ -2,6 +2,7 @@
 import Driver.Loop
 import NumqiModel.Sim
 import NumqiModel.Measure
+import NumqiModel.Gates
 
 namespace Numqi.Driver.C03
 open Numqi
@@ -10,9 +11,11 @@ open Numqi
 structure Carrier (α : Type) where
   parse : String → Option α
   str : α → String
+  /-- the imaginary unit of the carrier -/
+  I : α
 
 /-- `Z`: Gaussian integers `a,b` -/
-def carZ : Carrier GInt := ⟨parseGInt?, GInt.toStr⟩
+def carZ : Carrier GInt := ⟨parseGInt?, GInt.toStr, GInt.I⟩
 
 /-- `Q`: every scalar comes in as two binary64 bit patterns `reBits,imBits` and is decoded exactly;
 results go out as exact rationals `p/q,p/q` -/
@@ -23,10 +26,10 @@ def carQ : Carrier QI :=
           if x / 2 ^ 52 % 2048 = 2047 || y / 2 ^ 52 % 2048 = 2047 then none   -- inf / nan
           else pure ⟨ratOfFloatBits x, ratOfFloatBits y⟩
       | _ => none,
-   QI.toStr⟩
+   QI.toStr, ⟨0, 1⟩⟩
 
 section
-variable {α : Type} [Add α] [Mul α] [Zero α] [One α] [Conj α]
+variable {α : Type} [Add α] [Sub α] [Neg α] [Mul α] [Zero α] [One α] [Conj α]
 
 def parseArr (car : Carrier α) (s : String) : Option (Array α) :=
   if s = "-" || s = "" then some #[] else ((s.splitOn ";").mapM car.parse).map List.toArray
@@ -35,7 +38,43 @@ def strArr (car : Carrier α) (a : Array α) : String := ";".intercalate (a.toLi
 
 def parseIdx? (s : String) : Option (List Int) := parseIntList? s
 
-/-- one program step: `u:<t>:<U>`, `c:<c>:<t>:<U>`, `m:<s>:<bits>`, `x:<U>`, `s:<delta>` (shift everything so far) -/
+/-- `c~s` -/
+def parsePair (car : Carrier α) (s : String) : Option (CS α) :=
+  match s.splitOn "~" with
+  | [a, b] => do let c ← car.parse a; let s ← car.parse b; pure ⟨c, s⟩
+  | _ => none
+
+def parsePairs (car : Carrier α) (s : String) : Option (List (CS α)) :=
+  if s = "-" || s = "" then some [] else (s.splitOn ";").mapM (parsePair car)
+
+/-- a call of a `Circuit` gate method: name, qubits, angle pairs -/
+def parseVocab (name : String) (q : List Int) (p : List (CS α)) : Option (Vocab α) :=
+  match name, q, p with
+  | "X", [a], [] => some (.X a) | "Y", [a], [] => some (.Y a) | "Z", [a], [] => some (.Z a) | "S", [a], [] => some (.S a)
+  | "H", [a], [x] => some (.H a x) | "T", [a], [x] => some (.T a x)
+  | "Swap", [a, b], [] => some (.Swap a b)
+  | "cnot", [a, b], [] => some (.cnot a b) | "cx", [a, b], [] => some (.cnot a b)
+  | "cy", [a, b], [] => some (.cy a b) | "cz", [a, b], [] => some (.cz a b)
+  | "toffoli", [a, b, c], [] => some (.toffoli a b c)
+  | "rx", [a], [x] => some (.rx a x) | "ry", [a], [x] => some (.ry a x) | "rz", [a], [x] => some (.rz a x)
+  | "u3", [a], [x, y, z] => some (.u3 a x y z)
+  | "rzz", [a, b], [x] => some (.rzz a b x)
+  | "crx", [a, b], [x] => some (.crx a b x) | "cry", [a, b], [x] => some (.cry a b x) | "crz", [a, b], [x] => some (.crz a b x)
+  | "cu3", [a, b], [x, y, z] => some (.cu3 a b x y z)
+  | _, _, _ => none
+
+/-- the constants / constructors of `numqi.gate` by name -/
+def gateArray (car : Carrier α) (name : String) (p : List (CS α)) : Option (Array α) :=
+  match name, p with
+  | "I", [] => some Gates.I2 | "X", [] => some Gates.X | "Y", [] => some (Gates.Y car.I) | "Z", [] => some Gates.Z
+  | "S", [] => some (Gates.S car.I) | "Swap", [] => some Gates.Swap | "CNOT", [] => some Gates.CNOT | "CZ", [] => some Gates.CZ
+  | "H", [x] => some (Gates.H x) | "T", [x] => some (Gates.T car.I x)
+  | "rx", [x] => some (Gates.rx car.I x) | "ry", [x] => some (Gates.ry x) | "rz", [x] => some (Gates.rz car.I x)
+  | "rzz", [x] => some (Gates.rzz car.I x) | "u3", [x, y, z] => some (Gates.u3 car.I x y z)
+  | _, _ => none
+
+/-- one program step: `u:<t>:<U>`, `c:<c>:<t>:<U>`, `m:<s>:<bits>`, `x:<U>`, `s:<delta>` (shift everything so far),
+`v:<name>:<qubits>:<pairs>` (a method of the gate vocabulary, read through `Vocab.toRaw`) -/
 inductive Step (α : Type) where
   | op (g : RawOp α)
   | shift (δ : Int)
@@ -48,6 +87,8 @@ def parseStep (car : Carrier α) (s : String) : Option (Step α) :=
   | ["m", sq, b] => do let sq ← parseIdx? sq; let b ← parseBits? b; pure (.op (.measure sq b))
   | ["x", u] => do let u ← parseArr car u; pure (.op (.custom u))
   | ["s", d] => do let d ← d.toInt?; pure (.shift d)
+  | ["v", name, q, p] => do
+      let q ← parseIdx? q; let p ← parsePairs car p; let v ← parseVocab name q p; pure (.op (v.toRaw car.I))
   | _ => none
 
 /-- run the program text: gate appends, and in-place shifts of everything appended so far -/
@@ -138,6 +179,18 @@ def handleR (car : Carrier α) (args : List String) : String :=
       let some c := compileCircuit n prog | return "error"
       let recs := measureRecords c psi
       return strArr car (applyStateA c psi) ++ String.join (recs.map fun r => " M " ++ strArr car r)
+  | ["gatemat", name, p] => Id.run do
+      let some p := parsePairs car p | return "bad-op"
+      let some a := gateArray car name p | return "bad-op"
+      return strArr car a
+  | ["vocab", name, q, p] => Id.run do
+      let some q := parseIdx? q | return "bad-op"
+      let some p := parsePairs car p | return "bad-op"
+      let some v := parseVocab name q p | return "bad-op"
+      match v.toRaw car.I with
+      | .unitary u t => return s!"u {intListStr t} {strArr car u}"
+      | .control u c t => return s!"c {intListStr c} {intListStr t} {strArr car u}"
+      | _ => return "bad-op"
   | ["unitary", prog] => Id.run do
       let some prog := parseProg car prog | return "bad-op"
       if prog.isEmpty || prog.any RawOp.isMeasure then return "error"
